@@ -1201,9 +1201,25 @@ class Interp:
             return self.range_iter(v)
         if isinstance(v, SetV):
             return iter(self.set_iteration_order(v))
+        if isinstance(v, MapV):
+            return iter(self.map_iteration_order(v))
         if isinstance(v, Union):
             return self.iterate(self.resolve(v))
         raise InternalError("iteration over %s" % type(v).__name__)
+
+    def map_iteration_order(self, m):
+        """(key, value) pairs of a HashMap; with hash_order_nondet the order is an explored choice."""
+        items = [TupleV([k, v]) for k, v in m.items]
+        if self.hash_order_nondet and len(items) > 1:
+            out = []
+            rest = list(items)
+            while len(rest) > 1:
+                i = self.ex.choose(len(rest))
+                out.append(rest.pop(i))
+            out.extend(rest)
+            self.ex.event("hash_iteration", n=len(items))
+            return out
+        return items
 
     def peek_iter(self, p):
         while True:
